@@ -89,6 +89,27 @@ pub struct RunStats {
     pub diverged: bool,
 }
 
+/// Watchdog: the clock of the simulation is paused, so a step that takes a minute of real time is a step that never ends.
+/// The profile and the choices applied so far (the last one is the step that hangs) are written to <out>.hang, exit code 3.
+static PENDING: std::sync::Mutex<Option<(std::time::Instant, String)>> = std::sync::Mutex::new(None);
+thread_local! {
+    static HISTORY: std::cell::RefCell<(Value, Vec<Value>)> = std::cell::RefCell::new((Value::Null, Vec::new()));
+}
+
+pub fn start_watchdog(out_path: &str) {
+    let hang_path = format!("{}.hang", out_path);
+    std::thread::spawn(move || loop {
+        std::thread::sleep(std::time::Duration::from_millis(500));
+        let g = PENDING.lock().unwrap();
+        if let Some((t0, v)) = g.as_ref() {
+            if t0.elapsed() > std::time::Duration::from_secs(60) {
+                std::fs::write(&hang_path, v).unwrap();
+                std::process::exit(3);
+            }
+        }
+    });
+}
+
 async fn step(
     c: &mut Cluster,
     choice: &Choice,
@@ -96,7 +117,19 @@ async fn step(
     i: usize,
     out: &mut dyn Write,
 ) -> bool {
+    if i <= 1 {
+        HISTORY.with(|h| *h.borrow_mut() = (serde_json::to_value(&c.profile).unwrap(), Vec::new()));
+    }
+    HISTORY.with(|h| {
+        let mut h = h.borrow_mut();
+        h.1.push(serde_json::to_value(choice).unwrap());
+        *PENDING.lock().unwrap() = Some((
+            std::time::Instant::now(),
+            json!({"run": run, "i": i, "profile": h.0, "choices": h.1, "no_drain": true}).to_string(),
+        ));
+    });
     let r = std::panic::AssertUnwindSafe(c.apply(choice)).catch_unwind().await;
+    *PENDING.lock().unwrap() = None;
     let p = take_panic();
     match r {
         Ok((a, args, resp)) => {
@@ -335,6 +368,7 @@ pub fn main(args: &[String]) -> i32 {
     let mode = args.first().map(|s| s.as_str()).unwrap_or("walk");
     let out_path = arg(args, "--out").unwrap_or("/dev/stdout");
     let mut out = std::io::BufWriter::new(std::fs::File::create(out_path).unwrap());
+    start_watchdog(out_path);
     match mode {
         "walk" => {
             let names: Vec<String> = arg(args, "--profile")
